@@ -39,7 +39,7 @@ Replaying    == {c \in chans : stash[c] # <<>>}
 ReplayingMsgs == UNION {{Wire(stash[c][i]) : i \in 1..Len(stash[c])} : c \in Replaying}
 
 (* all premature updates of channel c replayed in some order *)
-Orders(n) == {s \in [1..n -> 1..n] : \A i, j \in 1..n : i # j => s[i] # s[j]}
+Orders(n) == Permutations(1..n)
 RECURSIVE Run(_, _, _, _)
 \* acc = [pol, res (index -> result), app (applied messages)]
 Run(c, order, k, acc) ==
